@@ -687,22 +687,23 @@ def replay(case: dict) -> list[str]:
 
 # input features under which a clause is known to fail on the pinned tree: such cases are counted under
 # their own clause name '<clause>@<tags>' so that they neither hide nor crowd out the others
-_CONTENT_TAGS = ["prepeptide-cut", "prepeptide-post-origin", "origin-feature-outside", "numbers-not-contiguous",
-                 "whole-circle-region", "exons-span-region", "extract-order-differs", "frameshifted-gene-cut"]
-_LOADING_TAGS = ["first-candidate>1", "first-subregion>1"] + _CONTENT_TAGS
+# (tags of repaired findings - first-candidate>1, first-subregion>1, origin-region at the parent qualifiers,
+# prepeptide-post-origin - are still computed as a description of the case but no longer name a clause:
+# C12-F1..F4 are fixed in /repo, their cases are judged under the bare clause names again)
+_CONTENT_TAGS = ["origin-feature-outside", "numbers-not-contiguous", "whole-circle-region", "exons-span-region",
+                 "extract-order-differs", "frameshifted-gene-cut"]
+_LOADING_TAGS = list(_CONTENT_TAGS)
 RELEVANT = {
     "write-ok": ["origin-feature-outside"],
     "sequence": ["whole-circle-region"],
     "numbering-from-1": ["numbers-not-contiguous", "whole-circle-region"],
     "candidate-protocluster-refs": ["numbers-not-contiguous", "whole-circle-region"],
     "core-locations": ["whole-circle-region"],
-    "region-candidate-refs": ["first-candidate>1", "numbers-not-contiguous", "whole-circle-region"],
-    "region-subregion-refs": ["first-subregion>1", "numbers-not-contiguous", "whole-circle-region"],
+    "region-candidate-refs": ["numbers-not-contiguous", "whole-circle-region"],
+    "region-subregion-refs": ["numbers-not-contiguous", "whole-circle-region"],
     "reloads-one-region": _LOADING_TAGS,
     "reloaded-same-content": _LOADING_TAGS + ["parts-against-strand"],
     "reloaded-after-ref-repair": _CONTENT_TAGS + ["parts-against-strand"],
-    "parent-bio-qualifiers-unchanged": ["origin-region"],
-    "prepeptide-locations": ["prepeptide-cut", "prepeptide-post-origin"],
     "features-same-bases": ["parts-against-strand", "origin-feature-outside", "whole-circle-region"],
 }
 
@@ -722,6 +723,8 @@ def _known(clause: str, case: Any, clauses: tuple, tag: str) -> bool:
 _LOADING = ("reloads-one-region", "reloaded-same-content", "reloaded-after-ref-repair")
 
 FINDING_CLASSES: dict[str, Any] = {
+    # C12-F1..F4 are repaired in /repo (57e0f6b3, 5d3fc866, f41a9a0a): their tags no longer appear in any
+    # clause name, so these predicates cannot match; a recurrence is an ordinary (unclassified) failure
     # the region feature's candidate_cluster_numbers keep the numbers of the full record
     "C12-F1": lambda clause, case: _known(clause, case, ("region-candidate-refs",) + _LOADING, "first-candidate>1"),
     # the region feature's subregion_numbers keep the numbers of the full record
